@@ -7,6 +7,7 @@ import (
 	"os"
 	"path/filepath"
 	"runtime"
+	"strings"
 	"sync"
 	"syscall"
 	"time"
@@ -70,3 +71,19 @@ func execWorkers() int {
 // defsMu guards the Defs maps of contract files: synthetic predicates (induction hypotheses, `use forall` instances) are
 // added while functions are verified in parallel.
 var defsMu sync.RWMutex
+
+// sharedProviders: packages whose contract files were written as the shared source of ext/iface contracts for library
+// interfaces (messaging.Port, IDGenerator, tracing, ...). Their files are loaded first and their declarations win the
+// global table; every package may still override a declaration for its own calls.
+var sharedProviders = []string{"_std", "mem/rob", "noc/directconnection", "messaging", "timing", "queueing", "modeling",
+	"hooking", "mem", "internal/codec", "daisen2/internal/httpapi"}
+
+// providerRank accepts a directory relative to the contracts root or an import path.
+func providerRank(pkg string) int {
+	for i, p := range sharedProviders {
+		if pkg == p || strings.HasSuffix(pkg, "/"+p) {
+			return i
+		}
+	}
+	return len(sharedProviders)
+}
